@@ -57,6 +57,10 @@ def receiver_local(f, op):
     return l
 
 
+def fl_all(fb, f):
+    return [fb.fn(p) for p in fb.closures_of(f.path) if fb.fn(p) is not None and fb.fn(p).has_mir()]
+
+
 def run(ctx):
     fb = ctx.fb()
     T = optable()
@@ -291,6 +295,31 @@ def run(ctx):
                      + ('' if ok else ' - VIOLATED from bb%s: an operator can be skipped without recording its available inputs, so partial_run no longer returns them' % bad_from), pp.loc())
             fl = [fb.fn(p) for p in fb.closures_of(pp.path)]
             used = any(call_is(c, 're:HashSet::<T, S, A>::contains$|HashSet::<T, S>::contains$') for f2 in fl for c in f2.calls())
+            # the candidate list starts as the supplied inputs; operator outputs appended in the loop must not repeat one of
+            # them (an input supplied for one output of a multi-output operator that is kept), else partial_run returns the
+            # value twice / run_plan removes it twice ("missing output value")
+            cand = [c for c in pp.calls() if c.bb in body and call_is(c, 're:Vec<T, A> as core::iter::traits::collect::Extend<.*>>::extend$|Vec::<T, A>::extend$|Vec::<T, A>::push$')
+                    and 'candidate' in (pp.names or {}).get(str(receiver_local(pp, c.args[0])), '')]
+            uniq = bool(cand)
+            for c in cand:
+                chain_ok = False
+                cur = c.args[1]
+                for _ in range(6):
+                    r = pp.resolve_copy(cur)
+                    if r[0] != 'call':
+                        break
+                    if re.search(r'Iterator::filter$', r[1].callee or ''):
+                        cty = pp.local_ty(op_local(r[1].args[1]) or 0)
+                        for f2 in fl_all(fb, pp):
+                            if (':%d:' % f2.line) in cty and any(re.search(r'::contains$', x.callee or '') for x in f2.calls()):
+                                chain_ok = True
+                    if not r[1].args:
+                        break
+                    cur = r[1].args[0]
+                uniq = uniq and chain_ok
+            dedup = any(call_is(c, 're:Vec::<T, A>::dedup$|Itertools::unique$') for c in pp.calls())
+            ctx.inst(R, 'candidate-outputs-unique', uniq or dedup, 'operator outputs are appended to the candidate list only if they are not supplied inputs (which the list starts with)' if uniq or dedup else
+                     'operator outputs are appended to the candidate list without excluding supplied inputs: a value supplied for one output of a kept multi-output operator is listed twice', cand[0].loc() if cand else pp.loc())
             ctx.inst(R, 'leaf-set-consulted', used, 'the returned output list is filtered by membership in the recorded leaf set', pp.loc())
 
     # ---- single door
